@@ -319,7 +319,7 @@ def gen_energy_world(rng: random.Random, n_steps: int, dt: Optional[int] = None)
     for t in sorted({0, dt * (n_steps // 3) + 1, dt * (n_steps // 2)}):
         for s in stations:
             for (cid, _, _) in s["plugs"]:
-                prices.append({"time": t, "target": s["id"], "charger_id": cid, "price": rng.choice([0.0, 0.013, 0.2, 0.45, 0.9])})
+                prices.append({"time": t, "target": s["id"], "charger_id": cid, "price": rng.choice([0.0, 0.013, 0.2, 0.45, 0.9, -0.15])})     # incl. a tariff that pays the driver
     return {"name": "energy", "dt": dt, "start": 0, "end": dt * n_steps, "cancel": max(600, 5 * dt), "vehicles": vehicles,
             "requests": requests, "stations": stations, "bases": bases, "prices": prices, "price_key": "station_id",
             "rate": (2.2, 1.6, 5.0), "focus": "energy"}
@@ -351,6 +351,13 @@ def gen_shift_world(rng: random.Random, n_steps: int, dt: Optional[int] = None) 
     for k, (sid, _, _) in enumerate(sched):
         vehicles.append({"id": f"h{k+1}", "lat": c0[0], "lon": c0[1], "mech": "leaf_50", "soc": 0.9, "schedule": sid, "home_base": "b1"})
     vehicles.append({"id": "a1", "lat": c1[0], "lon": c1[1], "mech": "leaf_50", "soc": 0.9})
+    # human-driven vehicles that run out of energy early in the run (away from home, nearly flat): their drivers' shifts
+    # still begin and end while the vehicle is out of service
+    for k, sid in enumerate(("grid", "wrap", "offgrid")):
+        flat = min(0.9, max(1e-5, 0.8 * dt * (n_steps / rng.choice([5, 8, 12])) / 3600.0 / 50.0))
+        c2 = world.at(1500 + 40 * k, -900)        # away from the station, or they would simply plug in
+        vehicles.append({"id": f"h{len(sched) + k + 1}", "lat": c2[0], "lon": c2[1], "mech": "leaf_50", "soc": flat,
+                         "schedule": sid, "home_base": "b1"})
     requests = []
     n_r = min(60, max(6, n_steps // 3))
     for k in range(n_r):
